@@ -463,3 +463,4 @@ def register(_reg, _mt, STD):  # noqa: ANN001
     _extend('C08', [round10.rule_unexpected_keys_only_formatted])
     for pid_ in ('C05', 'C16', 'C19'):
         _extend(pid_, [round10.rule_filled_fields_accepted_back])
+    _extend('C06', [round10.rule_path_built_by_its_class])
